@@ -7,6 +7,7 @@
   tell `s` from `t`; it implies `view s = view t`.
 -/
 import Aqv.Lemmas.StateGood
+import Aqv.Gen.StateJournal
 namespace Aqv.Props.C09
 open Aqv Aqv.State
 
@@ -216,5 +217,58 @@ example : Good true pre1 := good_fresh true _
 -- account leaves the dirty set exactly as it was (so `H` holds), whereas the F1 history does not
 example : (runD [.tx .snap, .tx (.mutate (.addBalance 2 5)), .tx (.mutate (.suicide 2)), .tx (.revert 0)] pre1).dirty = pre1.dirty := by decide
 example : (runD [.tx .snap, .tx (.mutate (.addBalance 1 5)), .tx (.revert 0)] pre1).dirty ≠ pre1.dirty := by decide
+
+
+/-! ### the journal inventory of the Go source (regenerated from /repo on every run: tools/gen.py statejournal) -/
+
+/-- the inventory the model was written against: (function, journal entry types appended, raw setters / direct field writes). -/
+def modelledInventory : List (String × List String × List String) := [
+  ("StateDB.AddLog", ["addLogChange"], []),
+  ("StateDB.AddPreimage", ["addPreimageChange"], []),
+  ("StateDB.AddRefund", ["refundChange"], ["=refund"]),
+  ("StateDB.CreateAccount", [], ["setBalance"]),
+  ("StateDB.Suicide", ["suicideChange"], ["=data.Balance", "markSuicided"]),
+  ("StateDB.clearJournalAndRefund", [], ["=refund"]),
+  ("StateDB.createObject", ["createObjectChange", "resetObjectChange"], ["setNonce"]),
+  ("balanceChange.undo", [], ["setBalance"]),
+  ("codeChange.undo", [], ["setCode"]),
+  ("newObject", [], ["=data.Balance", "=data.CodeHash"]),
+  ("nonceChange.undo", [], ["setNonce"]),
+  ("refundChange.undo", [], ["=refund"]),
+  ("stateObject.SetBalance", ["balanceChange"], ["setBalance"]),
+  ("stateObject.SetCode", ["codeChange"], ["setCode"]),
+  ("stateObject.SetNonce", ["nonceChange"], ["setNonce"]),
+  ("stateObject.SetState", ["storageChange"], ["setState"]),
+  ("stateObject.deepCopy", [], ["=suicided"]),
+  ("stateObject.markSuicided", [], ["=suicided"]),
+  ("stateObject.setBalance", [], ["=data.Balance"]),
+  ("stateObject.setCode", [], ["=data.CodeHash"]),
+  ("stateObject.setNonce", [], ["=data.Nonce"]),
+  ("stateObject.touch", ["touchChange"], ["=touched"]),
+  ("storageChange.undo", [], ["setState"]),
+  ("suicideChange.undo", [], ["=suicided", "setBalance"]),
+  ("touchChange.undo", [], ["=touched"])]
+
+/-- functions that may write journalled fields without appending an entry: the raw setters themselves, the undo methods,
+    constructors/copies, `clearJournalAndRefund`, and `CreateAccount` (its `setBalance` initialises the object that
+    `createObject` has just journalled with createObjectChange/resetObjectChange). -/
+def unjournalledWriters : List String := [
+  "StateDB.CreateAccount", "StateDB.clearJournalAndRefund", "newObject", "stateObject.deepCopy", "stateObject.markSuicided",
+  "stateObject.setBalance", "stateObject.setCode", "stateObject.setNonce",
+  "balanceChange.undo", "codeChange.undo", "nonceChange.undo", "refundChange.undo", "storageChange.undo", "suicideChange.undo",
+  "touchChange.undo"]
+
+/-- **journal_complete (syntactic half, T-gen)**: the journal inventory extracted from the current Go source is the one the
+    model mirrors — same functions, same appended entry types, same raw writes. Removing or adding a journal append or a raw
+    write site changes the generated table and this theorem stops checking. -/
+theorem journalled_mutators_as_modelled : Gen.StateJournal.funcs = modelledInventory := by decide
+
+/-- every function of core/state that writes a journalled field either appends a journal entry or is one of the listed
+    unjournalled writers; and each of the eleven entry kinds of the model is appended somewhere. -/
+theorem every_field_write_is_journalled :
+    (∀ f ∈ Gen.StateJournal.funcs, f.2.2 ≠ [] → f.2.1 ≠ [] ∨ f.1 ∈ unjournalledWriters) ∧
+    (∀ k ∈ ["createObjectChange", "resetObjectChange", "suicideChange", "balanceChange", "nonceChange", "storageChange",
+        "codeChange", "refundChange", "addLogChange", "addPreimageChange", "touchChange"],
+      ∃ f ∈ Gen.StateJournal.funcs, k ∈ f.2.1) := by decide
 
 end Aqv.Props.C09
